@@ -231,7 +231,7 @@ func (tm *TypeMap) Box(sort, v string) string {
 	u := "unbox." + sortName(sort)
 	tm.d.Fun(u, []string{SAny}, sort)
 	t := app(f, v)
-	tm.d.Axiom(Eq(app(u, t), v))
+	tm.d.Axiom(fmt.Sprintf("(forall ((x!q %s)) (! (= (%s (%s x!q)) x!q) :pattern ((%s x!q))))", sort, u, f, f))
 	return t
 }
 
